@@ -134,7 +134,7 @@ COMP = ("LogicalComponent", "SystemComponent", "PhysicalComponent", "Entity")
 def do_op(model, r: random.Random, neutral, created: list, log: list):
     op = r.choice(["set_name", "set_name", "set_desc", "set_summary", "create_fn", "create_comp", "create_constraint", "create_class",
                    "create_pv", "create_scenario", "create_reqmodule", "delete", "move", "ref_set", "spec_set", "spec_set", "spec_lang", "spec_del",
-                   "create_exchange"])
+                   "create_exchange", "set_root", "set_root"])
     S = lambda: legal_string(r, neutral)
     log.append(op)
     if op in ("set_name", "set_desc", "set_summary"):
@@ -145,6 +145,26 @@ def do_op(model, r: random.Random, neutral, created: list, log: list):
         v = S()
         setattr(o, attr, v)
         log[-1] = (op, o.uuid, v)
+    elif op == "set_root":
+        # the element at the top of a fragment (the Project, the root of a .capellafragment), reached through the lookup functions:
+        # save() may have replaced exactly these elements (namespace map of a root cannot be edited in place)
+        tops = []
+        for f, t in model._loader.trees.items():
+            if f.parts[0] == "\0" and f.suffix in SEMANTIC:
+                e = t.root if t.root.get("id") else next((c for c in t.root if isinstance(c.tag, str) and c.get("id")), None)
+                if e is not None:
+                    tops.append(e.get("id"))
+        if not tops:
+            return
+        uid = r.choice(tops)
+        o = model.by_uuid(uid)
+        if r.random() < 0.5:
+            same = [x for x in model.search(type(o)) if x.uuid == uid]
+            o = same[0] if same else o
+        attr = r.choice(["name", "summary", "description"])
+        v = S()
+        setattr(o, attr, v)
+        log[-1] = ({"name": "set_name", "summary": "set_summary", "description": "set_desc"}[attr], uid, v)
     elif op == "create_fn":
         p = pick(model, r, *FUNC)
         o = p.functions.create(name=S()) if hasattr(p, "functions") else p.activities.create(name=S())
